@@ -681,6 +681,10 @@ func (g *vfE3Good) Tick() error {
 	body := []byte(fmt.Sprintf("good-%d", g.n))
 	g.prod.Write(append(append([]byte("PUB gc.good\n"), vfE3BE32(uint32(len(body)))...), body...))
 	ft, data, err := vfE3ReadFrame(g.prod)
+	for err == nil && ft == frameTypeResponse && string(data) == "_heartbeat_" {
+		g.prod.Write([]byte("NOP\n")) // long runs: answer the server's heartbeats like a real client
+		ft, data, err = vfE3ReadFrame(g.prod)
+	}
 	if err != nil || ft != frameTypeResponse || string(data) != "OK" {
 		return fmt.Errorf("well-behaved producer: PUB #%d answered %d %q %v", g.n, ft, data, err)
 	}
